@@ -5,7 +5,7 @@ reference that sorts (-priority, registration sequence number) - a different alg
 """
 from mc.engine import hbfs
 from mc.engine.report import Violation
-from mc.engine.seams import Canon, reset_library
+from mc.engine.seams import Canon, reset_library, public_snapshot
 
 import numpy as np
 
@@ -118,7 +118,7 @@ class Harness:
             key = op[1]
             sid = self_id(self, key)
             reg = self._registered(w)
-            before = self.canon(w) if sid in reg else None
+            before = self.public(w) if sid in reg else None
             try:
                 sm.add_system(w.objs[key])
                 raised = None
@@ -128,7 +128,7 @@ class Harness:
                 if raised is None:
                     raise Violation(f'add_system accepted a second system with id {sid!r}',
                                     expected='KeyError', observed='accepted')
-                if self.canon(w) != before:
+                if self.public(w) != before:
                     raise Violation(f'rejected add_system({sid!r}) changed the scheduler state')
             else:
                 if raised is not None:
@@ -138,7 +138,7 @@ class Harness:
         elif kind == 'remove':
             sid = op[1]
             reg = self._registered(w)
-            before = self.canon(w) if sid not in reg else None
+            before = self.public(w) if sid not in reg else None
             try:
                 sm.remove_system(sid)
                 raised = None
@@ -152,7 +152,7 @@ class Harness:
                 if raised is None:
                     raise Violation(f'remove_system({sid!r}) of an unknown id did not raise',
                                     expected='SystemNotFoundError', observed='accepted')
-                if self.canon(w) != before:
+                if self.public(w) != before:
                     raise Violation(f'rejected remove_system({sid!r}) changed the scheduler state')
         elif kind == 'step':
             del w.log[:]
@@ -181,6 +181,9 @@ class Harness:
 
     def canon(self, w):
         return self.cn(w.model, [w.objs[p[0]] for p in self.pool])
+
+    def public(self, w):
+        return public_snapshot(w.model, names={id(o): k for k, o in w.objs.items()})
 
     def refstate(self, w):
         # registration order and scheduling order; sequence numbers only matter relative to each other
